@@ -7,7 +7,11 @@ RULE = ("pattern of every DAG(n) n<=4 under 3 node/edge insertion orders (quick)
         "REPEAT / stale-state stream: for every PDAG n<=3, a quarter of PDAG(4), the patterns and a quarter of the random cases "
         "the closure first runs on a neighbour graph (extra / moved / reversed / removed edge) in the same CPDAG object, the object "
         "is edited in place into the target and the judged closure runs on it or on its copy(). "
-        "distinct by (canonical PDAG, repeat mode, warm-up graph); non-trivial = the closure orients at least one edge")
+        "DENSE stream: patterns of 450 random DAGs with 6-8 nodes and density 0.7-0.9 under two labelings (scattered ints). "
+        "MARKED-TRIPLES stream (the claim is the closure with excluded_triples EMPTY on the object under test): every 3-subset "
+        "marked on a live copy() of the object, or the object itself carrying only triples with <= 1 skeleton edge (usable by no "
+        "rule instance); expected = the same closure. A few cases with identity-hashed label objects. "
+        "distinct by (canonical PDAG, repeat mode, warm-up graph, marks, labelling); non-trivial = the closure orients at least one edge")
 EXHAUSTIVE = {"quick": "patterns of all DAG(n) n<=4; all acyclic PDAG(n) n<=4",
               "thorough": "patterns of all DAG(n) n<=5; all acyclic PDAG(n) n<=4"}
 TRUSTED = ["networkx ancestors/descendants, MixedEdgeGraph.neighbors/has_edge taken at face value",
@@ -133,6 +137,42 @@ def gen_cases(tier, rng):
         seed = rng.randrange(1 << 30)
         g0 = warm_graph(g, _random.Random(seed))
         yield dict(c, kind="rep-" + c["kind"], rep=["same", "copy"][seed % 2], g0=g0)
+    # DENSE stream: patterns (plus 0-2 background orientations) of dense random DAGs on 6-8 nodes, each under two labelings
+    # (scattered ints on the implementation side: the visit order of neighbours comes from Python sets of the labels)
+    dense = []
+    for i in range(450 if tier == "quick" else 3000):
+        n = rng.randint(6, 8)
+        d = gr.random_kinds_graph(rng, n, gr.DAG_KINDS, p_edge=rng.choice([0.7, 0.8, 0.85, 0.9]))
+        p = pattern_of(d)
+        us = list(p["U"])
+        rng.shuffle(us)
+        bg = us[:min(len(us), rng.choice([0, 0, 1, 2]))]
+        p = gr.G(p["V"], D=sorted(p["D"] + bg), U=sorted(e for e in p["U"] if e not in bg))
+        for rep in range(2):
+            vs = list(p["V"])
+            rng.shuffle(vs)
+            c = {"kind": "dense", "g": dict(p, V=vs), "mode": 0 if len(p["U"]) <= 10 else 1,
+                 "labmap": rng.sample(range(1000), n)}
+            dense.append(c)
+            yield c
+    # MARKED-TRIPLES stream (excluded_triples is EMPTY on the object under test, or holds only triples that no rule
+    # instance can use): "copy" = every 3-subset of the nodes is marked on a live copy() of the object; "self" = the object
+    # itself carries the triples with at most one skeleton edge among the three nodes (R1-R4 instances span >= 2 edges)
+    for i, c in enumerate(base + dense):
+        n = len(c["g"]["V"])
+        if "rep" in c or n < 3 or not c["g"]["U"]:
+            continue
+        if c["kind"].startswith("pat") and ("_order" in c or i % 3):
+            continue
+        if c["kind"].startswith("pdag") and i % 8:
+            continue
+        if c["kind"] in ("rand", "dense") and i % 4:
+            continue
+        yield dict(c, kind="marks-" + c["kind"], marks=["copy", "self"][(i // 4) % 2])
+    # identity-hashed label objects (copy() / deepcopy of labels must keep node identity)
+    for i, c in enumerate(base):
+        if c["kind"] == "rand" and i % 8 == 0 and "labmap" not in c:
+            yield dict(c, kind="obj-rand", _lab="obj")
 
 
 def encode(case):
@@ -160,23 +200,41 @@ def decode(case, v):
 
 
 def run_impl(case):
+    import itertools
     from pywhy_graphs.algorithms.pag import _apply_meek_rules
+    lm = case.get("labmap")
+    rl = (lambda g: gr.relabel(g, lambda v: lm[v])) if lm else (lambda g: g)
+    back = {x: v for v, x in enumerate(lm)} if lm else None
+    keep = []
     if "rep" in case:
-        P, lab, inv = gr.to_cpdag(case["g0"], case)
+        P, lab, inv0 = gr.to_cpdag(rl(case["g0"]), case)
         _apply_meek_rules(P)                       # warm-up on the neighbour graph, result discarded
         for name, layer in P.get_graphs().items():
             for u, v in list(layer.edges):
                 P.remove_edge(u, v, name)
+        g = rl(case["g"])
         for k, name in (("D", "directed"), ("U", "undirected")):
-            for a, b in case["g"][k]:
+            for a, b in g[k]:
                 P.add_edge(lab(a), lab(b), name)
         if case["rep"] == "copy":
             P = P.copy()
     else:
-        P, lab, inv = gr.to_cpdag(case["g"], case)
+        g = rl(case["g"])
+        P, lab, inv0 = gr.to_cpdag(g, case)
+    if case.get("marks") == "copy":
+        Q = P.copy()
+        for t in itertools.combinations(list(Q.nodes), 3):
+            Q.mark_unfaithful_triple(*t)
+        keep.append(Q)
+    elif case.get("marks") == "self":
+        adj = {frozenset((lab(a), lab(b))) for k in "DU" for a, b in g[k]}
+        for t in itertools.combinations(list(P.nodes), 3):
+            if sum(frozenset(e) in adj for e in itertools.combinations(t, 2)) <= 1:
+                P.mark_unfaithful_triple(*t)
     _apply_meek_rules(P)
+    inv = (lambda x: back[inv0(x)]) if lm else inv0
     h = gr.from_mixed(P, inv)
-    return {"V": h["V"], "D": h["D"], "U": h["U"]}
+    return {"V": h["V"], "D": h["D"], "U": h["U"], "alive": len(keep)}
 
 
 def compare(case, impl, model):
@@ -216,7 +274,8 @@ def nontrivial(case, model):
 
 
 def key(case):
-    return (gr.canon(case["g"]), case.get("rep"), gr.canon(case["g0"]) if "g0" in case else None)
+    return (gr.canon(case["g"]), case.get("rep"), gr.canon(case["g0"]) if "g0" in case else None, case.get("marks"),
+            tuple(case["labmap"]) if "labmap" in case else None, case.get("_lab"))
 
 
 def shrink(case):
